@@ -2279,6 +2279,18 @@ impl QueryRouter {
                 | StatementKind::DropTable(_)
                 | StatementKind::CreateIndex(_)
                 | StatementKind::DropIndex(_)
+                // graph / vector / unified writes and state restores change what the cacheable
+                // NEIGHBORS, PATH, SIMILAR and SELECT statements read
+                | StatementKind::Node(_)
+                | StatementKind::Edge(_)
+                | StatementKind::Embed(_)
+                | StatementKind::Entity(_)
+                | StatementKind::GraphBatch(_)
+                | StatementKind::CypherCreate(_)
+                | StatementKind::CypherDelete(_)
+                | StatementKind::CypherMerge(_)
+                | StatementKind::Rollback(_)
+                | StatementKind::Chain(_)
         )
     }
 
